@@ -314,6 +314,54 @@ fn digest_boundaries(ctx: &Ctx) -> u64 {
     n
 }
 
+/// Content sweep: EVERY byte string of length <= 2 (thorough: <= 3), and for every length up to
+/// 72 every single byte position set to each of 9 values over a zero and an all-ones
+/// background, one-shot and split at the position, against the reference digests.
+fn content_sweep(ctx: &Ctx) -> u64 {
+    let maxlen = ctx.tier.pick(2usize, 3);
+    let mut inputs: Vec<Vec<u8>> = vec![vec![]];
+    for l in 1..=maxlen {
+        let n = 1usize << (8 * l);
+        for v in 0..n {
+            inputs.push((0..l).map(|i| (v >> (8 * i)) as u8).collect());
+        }
+    }
+    for len in 3..=72usize {
+        for bg in [0u8, 0xFF] {
+            for pos in 0..len {
+                for v in [0u8, 1, 2, 0x7F, 0x80, 0x81, 0xFE, 0xFF, 0x55] {
+                    let mut b = vec![bg; len];
+                    b[pos] = v;
+                    inputs.push(b);
+                }
+            }
+        }
+    }
+    let n: u64 = inputs
+        .par_iter()
+        .map(|input| {
+            let mut c = 0;
+            for seed in [0u64, 9001, u64::MAX] {
+                let m = refhash::murmur3_x64_128(input, seed);
+                let x = refhash::xxh64(input, seed);
+                let split = input.len() / 2;
+                for chunks in [vec![&input[..]], vec![&input[..split], &input[split..]]] {
+                    c += 2;
+                    if hook::murmur_write_finish(seed, &chunks) != m {
+                        ctx.violation("murmur.digest", &format!("MurmurHash3 of {} bytes (seed {seed}) differs from the reference", input.len()), json!({"algo":"murmur","seed":seed,"input_hex":hex(input),"chunks":chunks.iter().map(|c| c.len()).collect::<Vec<_>>()}));
+                    }
+                    if hook::xxh64_write_finish(seed, &chunks) != x {
+                        ctx.violation("xxh64.digest", &format!("XXH64 of {} bytes (seed {seed}) differs from the reference", input.len()), json!({"algo":"xxh64","seed":seed,"input_hex":hex(input),"chunks":chunks.iter().map(|c| c.len()).collect::<Vec<_>>()}));
+                    }
+                }
+            }
+            c
+        })
+        .sum();
+    ctx.count("content sweep: digests compared (all strings of length <= 2|3, single-byte variations up to length 72)", n);
+    n
+}
+
 fn derived(ctx: &Ctx) -> u64 {
     let mut n = 0u64;
     let nu = ctx.tier.pick(1024u64, 4096);
@@ -511,6 +559,8 @@ pub fn run(ctx: &Ctx) -> i32 {
     ctx.add_transitions(comps);
     ctx.sample(json!({"composition":{"algo":"xxh64","n":12,"chunks":[1,1,3,0,7],"note":"every one of the 2^(n-1) ordered splittings is fed as successive write calls"}}));
     let d = derived(ctx) + digest_boundaries(ctx);
+    let cs = content_sweep(ctx);
+    ctx.add_transitions(cs);
     ctx.count("derived_quantity_evaluations", d);
     ctx.sample(json!({"derived":{"item":"u64 17","hashed_bytes":hex(&recorded_bytes(&17u64)),"checks":["HLL coupon","theta hash x3 seeds","CPC row/col x3 configs","Count-Min buckets","Bloom positions"]}}));
     let cov = json!({
@@ -518,7 +568,7 @@ pub fn run(ctx: &Ctx) -> i32 {
         "bounds": {
             "lengths": format!("{} lengths{}", lens.len(), if ctx.tier==Tier::Thorough {" (0..=640 and 1000..1025; full seed x content product for len<=200, 2 seeds x sanity-buffer content above)"} else {" (full seed x content product)"}),
             "seeds": SEEDS,
-            "contents": ["counter*7+1", "all 0xFF", "XXH sanity buffer"],
+            "contents": ["counter*7+1", "all 0xFF", "XXH sanity buffer", "content sweep: every byte string of length <= 2 (thorough 3); every single-byte variation (9 values, 2 backgrounds) at every position for lengths 3..=72; 3 seeds; one-shot and split in the middle"],
             "compositions_n_max": nmax,
         },
         "traces_validated_against_impl": ctx.transitions.load(std::sync::atomic::Ordering::Relaxed),
@@ -528,7 +578,7 @@ pub fn run(ctx: &Ctx) -> i32 {
         vec![
             "the reference digests are my transcription of the published MurmurHash3_x64_128 and XXH64 algorithms, self-tested against published vectors on every run".into(),
             "state merging is sound because the hook returns every field of the hasher with the buffer masked to its fill level; bytes beyond the fill level are never read by finish/write".into(),
-            "contents are three fixed patterns, not all byte strings".into(),
+            "contents beyond the sweep are three fixed patterns, not all byte strings".into(),
         ],
     )
 }
